@@ -151,6 +151,10 @@ pub struct Alph {
     pub partial: bool,
     /// manual-mode PUBREC reply may carry an error code (v5)
     pub reply_err: bool,
+    /// manual responses (v5.0): every reply is first attempted with a 40-byte Reason String (PUBACK / PUBREC as
+    /// error 0x80, PUBREL / PUBCOMP as success); if the library refuses it (peer's Maximum Packet Size) the
+    /// application falls back to the plain reply - a refused reply must have changed nothing
+    pub reply_big: bool,
     /// publishes may be issued while not connected
     pub pub_any_status: bool,
     /// manual mode: the application may defer the PUBREL it owes after PUBREC
@@ -373,6 +377,8 @@ pub struct StoreEnt {
     pub kind: u8,
     pub topic: Vec<u8>,
     pub payload: Vec<u8>,
+    /// encoded size of the stored packet as the library holds it (properties included); 0 = unknown
+    pub size: usize,
 }
 
 #[derive(Clone, Debug, PartialEq, Eq, Hash, Default)]
@@ -665,7 +671,31 @@ impl<P: Pid> Ep<P> {
             return;
         }
         let ver = self.ver();
+        let big = self.cfg.alph.reply_big && ver == Ver::V5 && !self.m.auto_pub;
+        let reason = || Some(vec![Prop { id: 0x1F, val: PVal::Str(vec![b'r'; 40]) }]);
         for ap in call.recvs().into_iter().cloned().collect::<Vec<_>>() {
+            // the oversized first attempt; `true` = the library took it (it then is the reply)
+            let first_try = |me: &mut Self, calls: &mut Vec<Call>, a: AP| -> bool {
+                let c = me.lib_send(&a);
+                let taken = !c.has_error();
+                calls.push(c);
+                taken
+            };
+            if big {
+                let taken = match &ap {
+                    AP::Publish { qos: 1, pid: Some(id), .. } => first_try(self, calls, AP::Ack { ver, kind: AckKind::Puback, pid: *id, code: Some(0x80), props: reason() }),
+                    AP::Publish { qos: 2, pid: Some(id), .. } => first_try(self, calls, AP::Ack { ver, kind: AckKind::Pubrec, pid: *id, code: Some(0x80), props: reason() }),
+                    AP::Ack { kind: AckKind::Pubrel, pid, .. } => first_try(self, calls, AP::Ack { ver, kind: AckKind::Pubcomp, pid: *pid, code: Some(0), props: reason() }),
+                    AP::Ack { kind: AckKind::Pubrec, pid, code, .. } if code.map(|c| c < 0x80).unwrap_or(true) => first_try(self, calls, AP::Ack { ver, kind: AckKind::Pubrel, pid: *pid, code: Some(0), props: reason() }),
+                    _ => false,
+                };
+                if taken || calls.last().map(|c| c.has_close()).unwrap_or(false) {
+                    if calls.last().map(|c| c.has_close()).unwrap_or(false) {
+                        break;
+                    }
+                    continue;
+                }
+            }
             match &ap {
                 AP::Publish { qos: 1, pid: Some(id), .. } if !self.m.auto_pub => {
                     let code = if ver == Ver::V5 { match rep { 1 => Some(0x10), 2 => Some(0x80), _ => None } } else { None };
